@@ -62,6 +62,7 @@ type hist struct {
 	hidx    int
 	dist    Hist
 	nq      int
+	nsteps  int
 }
 
 func zi(i int) string { return fmt.Sprint(i) }
@@ -407,6 +408,7 @@ func (h *hist) record(op string, short string) error {
 	}
 	h.steps = append(h.steps, Tuple(op, pt, ob))
 	h.desc = append(h.desc, short)
+	h.nsteps++
 	// stale pool: a pool transaction spends an output that is no longer unspent
 	staleN := 0
 	for _, u := range utx {
@@ -433,7 +435,13 @@ func (h *hist) execBlock(txns coin.Transactions, dt uint64, tag string) error {
 	head, _ := h.n.Head()
 	sb, err := h.n.MakeBlock(txns, head.Time()+dt)
 	if err != nil {
-		return fmt.Errorf("MakeBlock: %v", err)
+		why := ""
+		for _, t := range txns {
+			if _, _, _, e := h.n.V.InjectUserTransaction(t); e != nil {
+				why += " [" + e.Error() + "]"
+			}
+		}
+		return fmt.Errorf("MakeBlock: %v%s", err, why)
 	}
 	if err := h.n.V.ExecuteSignedBlock(sb); err != nil {
 		return fmt.Errorf("ExecuteSignedBlock: %v", err)
@@ -724,7 +732,103 @@ func (h *hist) oneHistory(nblocks int) error {
 			}
 		}
 	}
+	// boundary endings: machine-arithmetic limits of the balance computation
+	switch e := r.Intn(100); {
+	case e < 30:
+		return h.hoursWrapEnding()
+	case e < 42:
+		return h.farFutureEnding()
+	}
 	return nil
+}
+
+// xor of the snapshot hashes of the whole unspent set, computed here from the API
+func (h *hist) uxHash() (cipher.SHA256, error) {
+	uxa, err := h.n.V.GetAllUnspentOutputs()
+	if err != nil {
+		return cipher.SHA256{}, err
+	}
+	var x cipher.SHA256
+	for _, ux := range uxa {
+		x = x.Xor(ux.SnapshotHash())
+	}
+	return x, nil
+}
+
+// hoursWrapEnding: a publisher-signed block whose transaction gives one output
+// 2^64-5 hours and another 10 (the unchecked sum of output hours wraps to 5 <= input
+// hours: block transactions are only held to the hard constraints, F14), then a later
+// block: the big output's hours + earned hours overflow, GetBalanceOfAddresses takes
+// its ErrAddEarnedCoinHoursAdditionOverflow branches.
+func (h *hist) hoursWrapEnding() error {
+	sp, headTime, err := h.n.Spendable(nil)
+	if err != nil {
+		return err
+	}
+	var in *coin.UxOut
+	for _, a := range h.w.Addrs {
+		for i := range sp[a] {
+			ux := sp[a][i]
+			hrs, _ := ux.CoinHours(headTime)
+			if hrs >= 5 && ux.Body.Coins >= 2000e6 && in == nil {
+				in = &sp[a][i]
+			}
+		}
+	}
+	if in == nil {
+		return nil
+	}
+	a1, a2 := h.w.Addrs[h.r.Intn(6)], h.w.Addrs[h.r.Intn(6)]
+	t, err := h.w.Spend(coin.UxArray{*in}, []cipher.Address{a1, a2}, []uint64{1000e6, in.Body.Coins - 1000e6}, []uint64{^uint64(0) - 4, 10})
+	if err != nil {
+		return err
+	}
+	head, _ := h.n.Head()
+	uxh, err := h.uxHash()
+	if err != nil {
+		return err
+	}
+	b, err := coin.NewBlock(head.Block, head.Time()+50, uxh, coin.Transactions{t}, func(*coin.Transaction) (uint64, error) { return 1, nil })
+	if err != nil {
+		return fmt.Errorf("NewBlock: %v", err)
+	}
+	sb := h.w.Sign(*b)
+	if err := h.n.V.ExecuteSignedBlock(sb); err != nil {
+		// the tree rejects output hours that wrap: nothing to explore here
+		h.dist.Add("hours_wrap_block:rejected")
+		return nil
+	}
+	h.dist.Add("hours_wrap_block:accepted")
+	if err := h.record("HBlock ("+h.blockTerm(sb)+")", "W1"); err != nil {
+		return err
+	}
+	// time passes: a normal block, possibly with something in the pool
+	used := map[cipher.SHA256]bool{}
+	if h.r.Bool() {
+		if t2, _, ok, err := h.n.RandomSpend(h.r, used); err == nil && ok {
+			if _, _, _, err := h.n.V.InjectUserTransaction(t2); err == nil {
+				for _, in := range t2.In {
+					used[in] = true
+				}
+			}
+		}
+	}
+	t3, _, ok, err := h.n.RandomSpend(h.r, used)
+	if err != nil || !ok {
+		return err
+	}
+	return h.execBlock(coin.Transactions{t3}, 3600*10, "B")
+}
+
+// farFutureEnding: a block two hundred billion seconds ahead: whole-coin seconds of
+// the large outputs overflow, the balance query reports the CoinHours error
+func (h *hist) farFutureEnding() error {
+	t, _, ok, err := h.n.RandomSpend(h.r, nil)
+	if err != nil || !ok {
+		return err
+	}
+	h.dist.Add("far_future_block")
+	return h.execBlock(coin.Transactions{t}, 200000000000+uint64(h.r.Intn(1000)), "T")
 }
 
 func (h *hist) blockTermGenesis() string {
@@ -798,11 +902,13 @@ func run(args []string) error {
 		}
 		hists = append(hists, List(h.steps))
 		hj = append(hj, map[string]interface{}{"history": i, "seed": f.Seed, "steps": len(h.steps), "ops": strings.Join(h.desc, " "),
-			"legend": "G genesis, Bn block of n txns, Xn block conflicting with a pool txn, I inject, F refresh, V remove-invalid, R(idx,hist) reopen after wiping"})
+			"legend": "G genesis, Bn block of n txns, Xn block conflicting with a pool txn, I inject, F refresh, V remove-invalid, R(idx,hist) reopen after wiping, W1 block with wrapping output hours, T block far in the future"})
 		stale = append(stale, h.stale...)
 		staleJ = append(staleJ, h.staleJ...)
 		nq += h.nq
-		o.Count(fmt.Sprint("hist", f.Seed, i, strings.Join(h.desc, " ")), true)
+		for k := 0; k < h.nsteps; k++ { // one evaluation per step: all views queried and compared
+			o.Count(fmt.Sprint("hist", f.Seed, i, k), true)
+		}
 	}
 	// one definition per history keeps Coq's parser happy
 	names := make([]string, len(hists))
